@@ -430,10 +430,16 @@ void PedersenCommitmentScheme::CommitBy
 bool PedersenCommitmentScheme::TestMembership
 	(mpz_srcptr c) const
 {
-	if ((mpz_cmp_ui(c, 0L) > 0) && (mpz_cmp(c, p) < 0))
-		return true;
-	else
+	// A commitment is an element of the subgroup of order $q$: check
+	// whether $0 < c < p$ and $c^q \equiv 1 \pmod{p}$ hold.
+	if ((mpz_cmp_ui(c, 0L) <= 0) || (mpz_cmp(c, p) >= 0))
 		return false;
+	mpz_t tmp;
+	mpz_init(tmp);
+	mpz_powm(tmp, c, q, p);
+	bool member = (mpz_cmp_ui(tmp, 1L) == 0);
+	mpz_clear(tmp);
+	return member;
 }
 
 bool PedersenCommitmentScheme::Verify
